@@ -1,7 +1,7 @@
 (* SemScope.v — C10: lexical scoping and structured control flow of the
    evaluator model Sem.v.  Proofs only; Sem.v is not modified. *)
 From Coq Require Import ZArith NArith List String Bool Floats FMapPositive Lia.
-From EvyV Require Import Base Num Ast Omap OmapProofs Sem.
+From EvyV Require Import Base Num Ast Omap OmapProofs Sem SemPure.
 Import ListNotations.
 
 (* ====================================================================== *)
@@ -911,7 +911,7 @@ Proof.
   repeat match goal with
          | |- (if ?b then Some _ else _) = None -> _ => destruct b; [discriminate|]
          end.
-  intros _; reflexivity.
+  apply pure_builtin_none_indep.
 Qed.
 
 Definition resolves_to (P : program) (name : str) (fd : funcdef) : Prop :=
